@@ -141,6 +141,10 @@ func newGlobals() *Globals {
 	g.decl("fn str_of", "(declare-fun str_of ((Array Int Int) Int Int Int) Str)")
 	g.decl("fn str_at", "(declare-fun str_at (Str Int) Int)")
 	g.addAxiom("(elem ", "(forall ((a Int) (i Int)) (! (and (= (elem_arr (elem a i)) a) (= (elem_idx (elem a i)) i) (= (tag (elem a i)) 1) (= (base (elem a i)) (base a)) (not (= (elem a i) 0))) :pattern ((elem a i))))")
+	// selem: address of element i of a slice value. Kept as a function symbol so that quantifier patterns over slice
+	// elements contain no arithmetic (patterns with + are matched syntactically and break on argument reordering).
+	g.decl("fn selem", "(declare-fun selem (Slice Int) Int)")
+	g.addAxiom("(selem ", "(forall ((s Slice) (i Int)) (! (= (selem s i) (elem (sl_arr s) (+ (sl_off s) i))) :pattern ((selem s i))))")
 	g.addAxiom("(strlen ", "(forall ((s Str)) (! (>= (strlen s) 0) :pattern ((strlen s))))")
 	return g
 }
